@@ -77,7 +77,7 @@ class Spec:
             for c in self.explicit(tier, seed):
                 yield c
         PG = [{"first_page": 1, "page_size": 1}, {"first_page": 1, "page_size": 1, "empty_every": 2}, {"first_page": 0, "page_size": 2, "empty_every": 1},
-              {"first_page": 2, "page_size": 2, "resp_page": 1}]
+              {"first_page": 2, "page_size": 2, "resp_page": 1}, {"resp_page": 0}, {"first_page": 1, "page_size": 2, "resp_page": 0, "empty_every": 3}]
         for j in range(n.get("enum", 0)):
             c = {"label": "crash-enum", "prog_seed": base + i, "gen": self.small_gen, "pattern": {"p": "crash_enum"}}
             if j % 3 == 2:  # the histories left by the crashes are delivered in pages (some of them empty but carrying a marker)
@@ -94,7 +94,7 @@ class Spec:
                    "pages": rng.choice([{}, {"first_page": 1, "page_size": 1}, {"first_page": 2, "page_size": 3},
                                         {"first_page": 1, "page_size": 50, "resp_page": 1}, {"first_page": 0, "page_size": 2},
                                         {"resp_page": 2}, {"first_page": 1, "page_size": 1, "empty_every": 2}, {"first_page": 0, "page_size": 2, "empty_every": 1},
-                                        {"resp_page": 1, "empty_every": 2}]),
+                                        {"resp_page": 1, "empty_every": 2}, {"resp_page": 0}, {"resp_page": 0, "first_page": 1, "page_size": 1}]),
                    "latency_ms": rng.choice([None, None, (0, 3)]),
                    # every third uninterrupted run is served by ONE warm sandbox: the same process (module state, caches, pools, the
                    # decorated handler object) handles every invocation of the execution, as a reused Lambda environment does
